@@ -3,10 +3,17 @@ package registry
 
 import (
 	"verifh/hlex"
+	"verifh/hparse"
 )
 
 var Harnesses = map[string]func(){
-	"verifh/hlex.Total":     hlex.Total,
-	"verifh/hlex.StepTotal": hlex.StepTotal,
-	"verifh/hlex.StepRef":   hlex.StepRef,
+	"verifh/hlex.Total":         hlex.Total,
+	"verifh/hlex.StepTotal":     hlex.StepTotal,
+	"verifh/hlex.StepRef":       hlex.StepRef,
+	"verifh/hparse.QueryRef":    hparse.QueryRef,
+	"verifh/hparse.QueryTotal":  hparse.QueryTotal,
+	"verifh/hparse.QueryLimit":  hparse.QueryLimit,
+	"verifh/hparse.SchemaRef":   hparse.SchemaRef,
+	"verifh/hparse.SchemaTotal": hparse.SchemaTotal,
+	"verifh/hparse.SchemaLimit": hparse.SchemaLimit,
 }
